@@ -1,6 +1,7 @@
 package vc
 
 import (
+	"golang.org/x/tools/go/ssa"
 	"fmt"
 	"go/token"
 	"go/types"
@@ -1042,6 +1043,67 @@ func (se *specEnv) call(n *SCall) Value {
 			se.fail("jsondecode of non-sequence")
 		}
 		return e.fromTerm(T, c.App("jsonDecode_"+sortName(T), sortOf(T), e.seqTerm(se.st, sq)), "jsondecode")
+	case "resultof":
+		// resultof("x509.NewCertPool"): the value returned by the unique call of
+		// that function in the function under verification (a way to refer to a
+		// local without depending on its name)
+		str, ok := n.Args[0].(*SStr)
+		if !ok {
+			se.fail("resultof(\"pkg.Func\")")
+		}
+		var found *ssa.Call
+		for _, blk := range e.curFn().Blocks {
+			for _, ins := range blk.Instrs {
+				call, isCall := ins.(*ssa.Call)
+				if !isCall {
+					continue
+				}
+				f := call.Call.StaticCallee()
+				if f == nil {
+					continue
+				}
+				k := funcKey(f)
+				if k == str.V || strings.HasSuffix(k, "/"+str.V) {
+					if found != nil {
+						se.fail("resultof(%q): more than one call", str.V)
+					}
+					found = call
+				}
+			}
+		}
+		if found == nil {
+			se.fail("resultof(%q): no such call", str.V)
+		}
+		v, ok := se.st.env[found]
+		if !ok {
+			se.fail("resultof(%q): the call has not been executed at this point", str.V)
+		}
+		return v
+	case "asn1decode", "asn1rest":
+		// asn1decode("pkix.AttributeTypeAndValue", seq): the value asn1.Unmarshal
+		// stores for that target type; asn1rest: the bytes it returns as rest
+		str, ok := n.Args[0].(*SStr)
+		if !ok {
+			se.fail("%s(\"type\", seq)", n.Fun)
+		}
+		T := e.lookupType(str.V)
+		if T == nil {
+			se.fail("unknown type %q", str.V)
+		}
+		a1 := se.eval(n.Args[1])
+		if _, abs := a1.(AbsentV); abs {
+			return AbsentV{}
+		}
+		sq, ok := a1.(*SeqV)
+		if !ok {
+			se.fail("%s of non-sequence", n.Fun)
+		}
+		data := e.seqTerm(se.st, sq)
+		if n.Fun == "asn1rest" {
+			rt := c.App("asn1Rest_"+sortName(T), sortByteSeq, data)
+			return &SeqV{W: 8, Len: c.App("seq_len", smt.BV(64), rt), Read: func(i *smt.Term) *smt.Term { return c.App("seq_at8", smt.BV(8), rt, i) }}
+		}
+		return e.fromTerm(T, c.App("asn1Decode_"+sortName(T), sortOf(T), data), "asn1decode")
 	case "jsonmember":
 		// jsonmember(seq, "name"): the raw JSON member that bodyToRawMessage extracts
 		a0 := se.eval(n.Args[0])
